@@ -372,7 +372,7 @@ func callWalk(b *tree.BTree, name string, p int, filter tree.FilterFn, n int) []
 func runScan(t *btree.BTree, name string, pi, p2i btree.Item, cont func(kv) bool) []kv {
 	out := []kv{}
 	it := func(i btree.Item) bool {
-		x, _ := i.(kv)
+		x, _ := plain(i)
 		out = append(out, x)
 		return cont(x)
 	}
@@ -855,7 +855,7 @@ func (w *world) concurrent(lo, hi int) string {
 				prev, first := 0, true
 				seen := map[int]bool{}
 				for _, x := range res {
-					y, _ := x.(kv)
+					y, _ := plain(x)
 					if (asc && y.k <= p) || (!asc && y.k >= p) {
 						report(fmt.Sprintf("concurrent exclusive scan from %d returned %d", p, y.k))
 					}
